@@ -132,7 +132,7 @@ def waits_in_every_status(ctx):
 
 
 def nested_wait_trees(ctx):
-    """Real ThreadRunner with 1 and 2 slots on the in-memory stack: chains and small group trees of nested waits complete (each within 20 s).
+    """Real ThreadRunner with 1 and 2 slots on the in-memory stack: chains and small group trees of nested waits complete (each within 90 s; about a second on an idle machine).
     Bounded stand-in for 'any finite tree of nested calls completes' - the one-step progress lemma is what is proved."""
     import threading
     from pyvc.prop import BoundedResult
@@ -140,7 +140,7 @@ def nested_wait_trees(ctx):
     from .realapp import real_app
     thorough = ctx.tier == "thorough"
     res = BoundedResult("nested_wait_trees", "real ThreadRunner, max_threads in {1, 2}: wait chains of depth 1..3" + ("..4" if thorough else "") + " and group trees (fan-out 2, depth 2) "
-                        "of tasks waiting on sub-tasks: every tree completes within 20 s")
+                        "of tasks waiting on sub-tasks: every tree completes within 90 s (about a second each on an idle machine)")
     threading.excepthook = lambda args: None
     n = 0
     shapes = [("chain", d) for d in ((1, 2, 3, 4) if thorough else (1, 2, 3))] + [("tree", 2)]
@@ -165,14 +165,14 @@ def nested_wait_trees(ctx):
                         box["v"] = f"raised {type(e).__name__}: {e}"
                 w = threading.Thread(target=ask, daemon=True)
                 w.start()
-                w.join(20)
+                w.join(90)
                 done = "v" in box
                 app.runner.stop_runner_loop()
                 # (a hung tree also hangs the stop of the runner: F-C11-1; the daemon threads end with the process)
                 rt.join(0.5 if not done else 5)
                 expect = depth if kind == "chain" else 2 ** depth
                 if not done or box["v"] != expect:
-                    res.failures.append({"what": f"ThreadRunner with {slots} slot(s): {kind} of depth {depth} " + ("did not complete within 20 s (waiting tasks keep their threads, "
+                    res.failures.append({"what": f"ThreadRunner with {slots} slot(s): {kind} of depth {depth} " + ("did not complete within 90 s (waiting tasks keep their threads, "
                                                  "the awaited sub-task is never started)" if not done else f"returned {box['v']!r}, expected {expect}"),
                                          "input": {"slots": slots, "shape": kind, "depth": depth}, "finding_key": f"tree-does-not-complete:{slots}"})
     res.cases = n
